@@ -57,6 +57,7 @@ theorem parseHsClass_eq_framed (c : HsClass) (bs : Bytes) (err : PErr)
   · show Except.map _ ((hsFramed 12 _).parse bs) = _; rw [hsFramed_header_error 12 _ bs err hh]; rfl
   · show Except.map _ ((hsFramed 22 _).parse bs) = _; rw [hsFramed_header_error 22 _ bs err hh]; rfl
   · show Except.map _ ((hsFramed 14 _).parse bs) = _; rw [hsFramed_header_error 14 _ bs err hh]; rfl
+  · show Except.map _ ((hsFramed 13 _).parse bs) = _; rw [hsFramed_header_error 13 _ bs err hh]; rfl
 
 /-- every alternative starts by parsing the common header with ITS type: when that fails, the
 alternative fails the same way -/
